@@ -63,6 +63,34 @@ def heap_call(func, call, heap):
     return None
 
 
+def heap_discipline(R, func, heap, rule):
+    """A list that is popped with heapq.heappop only ever grows through heapq.heappush (after an optional heapify): a plain
+    append/insert/extend - directly or through a local alias such as ``push = heap.append`` - breaks the heap invariant, and
+    pops stop coming out in key order."""
+    pops = [n for n in walk(func.body) if isinstance(n, ast.Call) and (heap_call(func, n, heap) or ('',))[0] == 'pop']
+    if not pops:
+        return
+    aliases = {}
+    for s in stmts(func.body):
+        if isinstance(s, ast.Assign) and len(s.targets) == 1 and isinstance(s.targets[0], ast.Name):
+            c = chain(s.value)
+            if c and len(c) == 2 and c[0] == heap and c[1] in ('append', 'insert', 'extend'):
+                aliases[s.targets[0].id] = s
+    bad = None
+    for n in walk(func.body):
+        if not isinstance(n, ast.Call):
+            continue
+        c = chain(n.func)
+        if c and len(c) == 2 and c[0] == heap and c[1] in ('append', 'insert', 'extend'):
+            bad = (n, src(n)[:60])
+        elif c and len(c) == 1 and c[0] in aliases:
+            bad = (aliases[c[0]], src(aliases[c[0]]))
+    R.decided(bad is None, rule, func, bad[0] if bad else pops[0], f'{heap} grows only through heappush (it is popped with heappop)',
+              f'heapq.heappush({heap}, entry)', bad[1] if bad else '',
+              extra={'consequence': 'heappop returns the first list element and sifts: after a plain append the smallest key is no longer first, '
+                                    'members come out of order'} if bad else None)
+
+
 def iterunion_template(model, R):
     func = model.func('algorithms.common.iterunion')
     if len(func.params) != 3:
@@ -87,6 +115,7 @@ def iterunion_template(model, R):
             and is_entry(lc.elt, g.target.id), 'TRAVERSAL', func, lc, 'every seed enters the heap under its own rank',
             f'[({p_key}(c), c) for c in {p_seeds}]', src(lc))
     heapified = [n for n in walk(func.body) if heap_call(func, n, heap) and heap_call(func, n, heap)[0] == 'heapify']
+    heap_discipline(R, func, heap, 'TRAVERSAL')
     loops = [s for s in func.body if isinstance(s, ast.While)]
     if len(loops) != 1:
         raise Unrecognised(f'{len(loops)} while loops', func=func, node=func.node)
@@ -348,4 +377,7 @@ def run(model, R):
     R.guard('DIRECTION', None, 'call sites', call_sites, model, R)
     R.guard('MAXIMAL', None, 'tools.maximal', maximal_rules, model, R)
     R.guard('DIRECTION', None, 'overrides', overrides, model, R)
+    # the ranks the traversals are keyed by exist on every lattice, also on an unpickled one
+    from .common import no_unpickle_shortcut
+    R.guard('TRAVERSAL', None, '_init call sites', no_unpickle_shortcut, model, R, 'TRAVERSAL')
     return __doc__.strip()
